@@ -120,7 +120,10 @@ class ControlThread(Thread):
 
         self._logger.info("Trying to pause...")
         for i in range(self._max_attempts_to_pause_all_threads):
-            if self._request_pause_and_wait():
+            self._controller.pause()
+            if self._thread_statuses_monitor.wait_for_all_threads_pause(
+                self._timeout_for_all_threads_pause
+            ):
                 self._logger.info("Success to pause the all background threads.")
                 self.on_paused()
                 return True
@@ -135,21 +138,6 @@ class ControlThread(Thread):
 
         self._logger.error("Failed to pause... ")
         return False
-
-    def _request_pause_and_wait(self) -> bool:
-        """Make one attempt to pause all threads.
-
-        Returns:
-            True if every thread acknowledged this pause request within the timeout.
-        """
-        timeout = self._timeout_for_all_threads_pause
-        # A thread released by a previous resume (or by a failed attempt) may not have
-        # cleared its paused flag yet; such a stale flag must not be taken as the
-        # acknowledgement of this request.
-        if not self._thread_statuses_monitor.wait_for_all_threads_resume(timeout):
-            return False
-        self._controller.pause()
-        return self._thread_statuses_monitor.wait_for_all_threads_pause(timeout)
 
     def resume(self) -> None:
         """Resume all paused threads in the system.
